@@ -106,9 +106,12 @@ class C17(Prop):
         for nm in names(cfg["n_sib"] if "cable" in kinds else 1, "cable" in kinds):
             if re.search(r"\[\d+\]$", nm) or re.search(r"_\d+_$", nm):
                 nm += "x"  # 'stem[3]' / 'stem_3_' is how EDIF spells bit 3 of bus 'stem': not a scalar net name
-            e = {"op": "create_cable", "on": top, "name": nm, "wires": r.choice([1, 1, 2])}
-            if e["wires"] > 1:
+            e = {"op": "create_cable", "on": top, "name": nm, "wires": r.choice([1, 1, 2, 4])}
+            if e["wires"] > 1 or r.random() < 0.1:
                 e["is_scalar"] = False
+                lo = r.choice([0, 0, 0, 1, 8, 98, 1000])
+                if lo:
+                    e["lower_index"] = lo   # bit identifiers <id>_<index>_ get longer suffixes than the width suggests
             emit(e)
         for nm in names(cfg["n_sib"] if "instance" in kinds else 1, "instance" in kinds):
             emit({"op": "create_child", "on": top, "name": nm, "ref": leaf})
@@ -187,7 +190,7 @@ class C17(Prop):
                 self.scopes.append((kind, [e.name for e in elems]))
                 if kind == "cable":
                     for e in elems:
-                        self.cable_info[e.name] = (len(e.wires), e.get("EDIF.identifier"))
+                        self.cable_info[e.name] = (2 if e.is_array else len(e.wires), e.get("EDIF.identifier"))
         elif ev["op"] == "parse" and self.scopes is not None:
             if outcome != "ok":
                 raise Violation("C17.reread.rejected", outcome.split(":", 1)[-1],
